@@ -449,7 +449,7 @@ impl<T: RealNumber + Scalar + AddAssign + SubAssign + MulAssign + DivAssign + Su
     }
 
     fn max(&self) -> T {
-        let mut m = T::zero();
+        let mut m = T::neg_infinity();
         for v in self.iter() {
             m = m.max(*v);
         }
@@ -457,7 +457,7 @@ impl<T: RealNumber + Scalar + AddAssign + SubAssign + MulAssign + DivAssign + Su
     }
 
     fn min(&self) -> T {
-        let mut m = T::zero();
+        let mut m = T::infinity();
         for v in self.iter() {
             m = m.min(*v);
         }
